@@ -85,6 +85,7 @@ var c06Forms = []customForm{
 	{"extend-ctx-int", false}, {"extend-ctx-needs-missing", false}, {"extend-ctx-of-two", false}, {"extend-ctx-regex", false},
 	{"extend-error-ctx", true},
 	{"extend-sametype", false}, {"extend-sametype-skipcopy", false},
+	{"declared-method-ctx-missing", false}, {"declared-method-ctx-available", false},
 }
 
 // ctxLayout: where the context arguments of the top method stand.
@@ -113,6 +114,14 @@ func buildC06(id string, form customForm, nest []nesting, wrapMode string, propG
 		lt := &space.Decl{Pkg: "out", Name: "U" + id, Under: tStr}
 		sc.Decls = append(sc.Decls, ls, lt)
 		s0, t0 = space.N(ls), space.N(lt)
+	} else if strings.HasPrefix(form.name, "declared-method-ctx") {
+		// the leaf contains a further named struct, so converting it needs a sub-method of its own
+		is := &space.Decl{Pkg: "in", Name: "I" + id, Under: space.St(f("Q", tInt))}
+		it := &space.Decl{Pkg: "out", Name: "I" + id, Under: space.St(f("Q", tInt))}
+		ls := &space.Decl{Pkg: "in", Name: "L" + id, Under: space.St(f("V", tInt), f("W", tInt), f("I", space.N(is)))}
+		lt := &space.Decl{Pkg: "out", Name: "L" + id, Under: space.St(f("V", tInt), f("W", tInt), f("I", space.N(it)))}
+		sc.Decls = append(sc.Decls, ls, lt, is, it)
+		s0, t0 = space.N(ls), space.N(lt)
 	} else if strings.HasPrefix(form.name, "extend-sametype") {
 		ls := &space.Decl{Pkg: "in", Name: "L" + id, Under: space.St(f("V", tInt), f("W", tInt))}
 		sc.Decls = append(sc.Decls, ls)
@@ -137,6 +146,10 @@ func buildC06(id string, form customForm, nest []nesting, wrapMode string, propG
 	var mlines []string
 	hasErr := form.fallible
 	switch form.name {
+	case "declared-method-ctx-available":
+		params = "ctxa string, source " + s.Go("conv")
+		sc.SrcIdx, sc.CtxIdx, ctxTypes = 1, []int{0}, []*space.Ty{tStr}
+		mlines = append(mlines, "context ctxa")
 	case "extend-ctx-int", "extend-error-ctx":
 		params = "ctxa int, source " + s.Go("conv")
 		sc.SrcIdx, sc.CtxIdx, ctxTypes = 1, []int{0}, []*space.Ty{tInt}
@@ -221,6 +234,13 @@ func buildC06(id string, form customForm, nest []nesting, wrapMode string, propG
 		applyMethodLines(lm, lines)
 		conv.Methods = append(conv.Methods, lm)
 		sc.Methods = append(sc.Methods, &ScMethod{Name: "Leaf", Params: "source " + sG, Result: tG, Lines: lines, M: lm})
+	case "declared-method-ctx-missing", "declared-method-ctx-available":
+		// a declared method that needs a context; the caller offers it or not
+		lm := &model.Method{Name: "Leaf", Src: s0, Dst: t0, Set: conv.Set, Fields: map[string]*model.FieldCfg{}, CtxTypes: []*space.Ty{tStr}}
+		lines := []string{"context ctxq", "map W V", "ignore W"}
+		applyMethodLines(lm, lines)
+		conv.Methods = append(conv.Methods, lm)
+		sc.Methods = append(sc.Methods, &ScMethod{Name: "Leaf", Params: "source " + sG + ", ctxq string", Result: tG, Lines: lines, M: lm})
 	case "underlying":
 		sc.ConvLines = append(sc.ConvLines, "useUnderlyingTypeMethods", "extend "+fn)
 		conv.Set.UseUnderlying = true
